@@ -3,7 +3,9 @@
 #include <algorithm>
 #include "../common/tape.hpp"
 
+#ifdef _OPENMP
 extern "C" int omp_get_num_procs(void) { return 64; }
+#endif
 
 namespace vf {
 using VarFn = CaseResult (*)(const RunCtx &, TapeReader &, unsigned size_hint);
